@@ -440,7 +440,7 @@ func PrintSuggestionsForLsp(p parser.Parser) {
 			return
 		}
 
-		if targetT.IsIdentifierType() && unicode.IsUpper(rune(targetT.ToString()[0])) {
+		if targetT.IsIdentifierType() && base.IsUpper(targetT.ToString()) {
 			printAllClasses()
 		}
 	}
@@ -541,11 +541,11 @@ func calculateObjectClassAndIsStatic(targetT base.T) (string, bool) {
 
 	var isStaticTarget bool
 
-	switch len(beforeCode) {
-	case 0:
-		isStaticTarget = unicode.IsUpper(rune(target[0]))
-	default:
+	switch {
+	case len(beforeCode) > 0:
 		isStaticTarget = unicode.IsUpper(rune(beforeCode[0]))
+	case len(target) > 0:
+		isStaticTarget = unicode.IsUpper(rune(target[0]))
 	}
 
 	if targetT.GetType() == base.SELF && !isStaticTarget {
@@ -633,6 +633,23 @@ func isParentClass(
 		return false
 	}
 
+	return isParentClassWithVisited(
+		sig,
+		frame,
+		class,
+		isStaticTarget,
+		make(map[base.ClassNode]bool),
+	)
+}
+
+// visited keeps the ancestor walk finite when the hierarchy contains a cycle
+func isParentClassWithVisited(
+	sig base.Sig,
+	frame, class string,
+	isStaticTarget bool,
+	visited map[base.ClassNode]bool,
+) bool {
+
 	if sig.Method == "new" {
 		return false
 	}
@@ -647,8 +664,22 @@ func isParentClass(
 
 	classNode := base.ClassNode{Frame: frame, Class: class}
 
+	if visited[classNode] {
+		return false
+	}
+
+	visited[classNode] = true
+
 	for _, parentNode := range base.ClassInheritanceMap[classNode] {
-		if isParentClass(sig, parentNode.Frame, parentNode.Class, isStaticTarget, parentNode.IsExtend, parentNode.IsInclude) {
+		if parentNode.IsExtend && !isStaticTarget {
+			continue
+		}
+
+		if parentNode.IsInclude && isStaticTarget {
+			continue
+		}
+
+		if isParentClassWithVisited(sig, parentNode.Frame, parentNode.Class, isStaticTarget, visited) {
 			return true
 		}
 	}
